@@ -81,11 +81,11 @@ def gen_history(rng, design, intensity=1.0):
                 for _ in range(ndead):
                     r = rng.random()
                     if not connected and r < 0.15:
-                        plan.append({"k": rng.choice(["disconnect", "replace"]), "bad": True, "inst": i["n"], "port": p, "c": copy.deepcopy(rng.choice(pool))})
+                        plan.append({"k": rng.choice(["disconnect", "replace"]), "bad": True, "form": rng.choice(["connect", "dict"]), "inst": i["n"], "port": p, "c": copy.deepcopy(rng.choice(pool))})
                         continue
                     c = copy.deepcopy(rng.choice(pool))
                     if connected and r < 0.3:
-                        plan.append({"k": "replace", "inst": i["n"], "port": p, "c": c})
+                        plan.append({"k": "replace", "form": rng.choice(["connect", "dict"]), "inst": i["n"], "port": p, "c": c})
                     else:
                         plan.append({"k": "connect", "form": rng.choice(["connect", "setattr", "call", "dict"]), "inst": i["n"], "port": p, "c": c})
                     connected = True
@@ -95,7 +95,7 @@ def gen_history(rng, design, intensity=1.0):
                 if p in final:
                     c = copy.deepcopy(final[p])
                     if connected and rng.random() < 0.4:
-                        plan.append({"k": "replace", "inst": i["n"], "port": p, "c": c})
+                        plan.append({"k": "replace", "form": rng.choice(["connect", "dict"]), "inst": i["n"], "port": p, "c": c})
                     else:
                         plan.append({"k": "connect", "form": rng.choice(["connect", "setattr", "call", "dict"]), "inst": i["n"], "port": p, "c": c})
                     if rng.random() < 0.1 * intensity:  # … taken off and put back
@@ -265,9 +265,18 @@ class Hist:
                     for p in kw:
                         self.ops.append({"k": "connect", "p": [ii, self.pidx(p)], "c": self.conn_of(inst.conns[p])})
                 elif k == "replace":
-                    v = mk(op["c"])
-                    self.ops.append({"k": "replace", "p": [ii, self.pidx(op["port"])], "c": self.conn_of(v)})
-                    old = inst.replace(op["port"], v)
+                    v = self.value(op["c"], mk, op.get("form", "connect"))
+                    if isinstance(v, dict):
+                        # replace(port, {member: connectable}): the anonymous bundle is made inside `replace`
+                        try:
+                            inst.replace(op["port"], v)
+                            self.ops.append({"k": "replace", "p": [ii, self.pidx(op["port"])], "c": self.conn_of(inst.conns[op["port"]])})
+                        except KeyError:
+                            self.ops.append({"k": "replace", "p": [ii, self.pidx(op["port"])], "c": self.conn_of(h.AnonymousBundle())})
+                            raise
+                    else:
+                        self.ops.append({"k": "replace", "p": [ii, self.pidx(op["port"])], "c": self.conn_of(v)})
+                        old = inst.replace(op["port"], v)
                 elif k == "disconnect":
                     self.ops.append({"k": "disconnect", "p": [ii, self.pidx(op["port"])]})
                     inst.disconnect(op["port"])
@@ -469,6 +478,10 @@ def corpus():
                "insts": [{"n": "i", "of": {"k": "module", "name": "Inner"}, "conns": [["b1", copy.deepcopy(fresh)], ["b2", copy.deepcopy(shared)]]}]}
         d = {"bundles": [bdef], "top": "Top", "modules": [inner, top]}
         ops = [con("i", "b1", copy.deepcopy(shared)), con("i", "b2", copy.deepcopy(shared)), con("i", "b1", copy.deepcopy(fresh), form)]
+        if form == "dict":
+            # … and by replace(port, dict), which fails on a port that is not connected yet and must leave nothing behind
+            ops = [{"k": "replace", "bad": True, "form": "dict", "inst": "i", "port": "b1", "c": copy.deepcopy(fresh)}] + ops[:2] + \
+                  [{"k": "replace", "form": "dict", "inst": "i", "port": "b1", "c": copy.deepcopy(fresh)}]
         for cut in (0, 2, len(ops)):
             hist = gen_history(random.Random(0), d, intensity=0.0)  # the other modules: their final connections, nothing else
             hist["Top"] = {"pre": ops[:cut], "post": ops[cut:]}
